@@ -453,6 +453,7 @@ class Engine:
         """Obligation: under the current path condition `cond` must hold (negation unsat)."""
         cond = self.norm(_b(cond))
         self.stats["obligations"] += 1
+        self.last_regular_witness = None
         # discharge conjuncts that the path already fixes (syntactic cache), that follow from the total order of
         # strings, or that the regular lemma proves; only the rest goes to the solver portfolio
         rest = []
@@ -478,7 +479,11 @@ class Engine:
             return True
         if r == "unknown":
             raise Unsupported(f"solver unknown on obligation {label}")
-        self.cex.append(dict(label=label, pc=list(self.pc), neg=neg, cf_apps=list(self.cf_apps)))
+        hint = None
+        w = getattr(self, "last_regular_witness", None)
+        if w is not None and z3.is_const(w[0]) and w[0].decl().name() in self.inputs:
+            hint = {w[0].decl().name(): w[1]}
+        self.cex.append(dict(label=label, pc=list(self.pc), neg=neg, cf_apps=list(self.cf_apps), hint=hint))
         return False
 
     def _known(self, e):
